@@ -40,6 +40,7 @@ type Violation struct {
 	Calls    int               `json:"shrink_calls,omitempty"`
 	Fp       uint64            `json:"fingerprint"`
 	Stderr   string            `json:"stderr,omitempty"`
+	Killed   bool              `json:"killed_worker,omitempty"`
 	ReplayCmd string           `json:"replay_cmd,omitempty"`
 }
 
@@ -103,6 +104,14 @@ var meta = map[string]*propMeta{
 			"a short count on a zero-length write is impossible and is not injected"},
 		Real: commonReal, Simulated: []string{"destination io.Writer (fault-injecting)", "map iteration order inside writeMap (seeded)", "logger (no-op)"},
 		EvalsAre: "fault injections",
+	},
+	"C14": {
+		Level: "exploration", QuickRuns: 2400, ThoroughRuns: 60000, MemLimitKB: 6 << 20,
+		Rule: "one run = a valid stream of 1..4 seeded zoo values produced by the real encoder x one of 7 documented decode entry points x a drawn type map (complete / empty / partial / shuffled); the transport then delivers (a) the undamaged stream, (b) EVERY prefix of it ended by EOF and by a non-EOF reset (all cut offsets; strided only above 1200/6000 bytes), (c) 24 (quick) / 64 (thorough) drawn structure-aware damage plans of 1..3 faults (flip, set-to-tag, drop, dup, swap, insert, noise) biased to the offsets where the encoder started a write. evaluations = damaged decodes. A run is non-trivial when a fault changed the delivered stream; distinct = distinct (entry point, type-map kind, valid stream hash).",
+		Assumptions: []string{"time is measured in executed library statements (instrumented copy), memory with runtime/metrics /gc/heap/allocs:bytes; budgets are 10x the largest ratio measured on 400 undamaged streams in the same process, clamped to fixed ceilings",
+			"workers run under ulimit -v 6 GiB and a wall-clock watchdog; a worker death is attributed to the run in flight and must reproduce from (seed, run) before it is reported"},
+		Real: append([]string{"bufio.Reader (drawn size) in the bufio entry point"}, commonReal...), Simulated: []string{"sender->decoder transport (SimReader without read-ahead, fault plans)", "simulated clock = executed statements", "logger (no-op)", "map iteration order in the sender (seeded)"},
+		EvalsAre: "damaged decodes",
 	},
 }
 
@@ -214,7 +223,9 @@ func runWorker(m *propMeta, a workerArgs, timeout time.Duration) *procResult {
 			pr.Res = &r
 		}
 	}
-	os.Remove(a.Out)
+	if os.Getenv("VERIF_DEBUG") == "" {
+		os.Remove(a.Out)
+	}
 	os.Remove(a.Cur)
 	return pr
 }
@@ -395,6 +406,7 @@ func shrinkOutOfProcess(m *propMeta, v *Violation, budget int) *Violation {
 	}
 	nv := *v
 	nv.Trace = cur
+	nv.Pin = ""
 	nv.Shrunk = true
 	nv.Calls = calls
 	return &nv
@@ -556,7 +568,7 @@ func main() {
 		}
 		if c != "" {
 			// the process was killed by the run in flight: reconstruct it from (seed, run index)
-			v := &Violation{Property: prop, Class: c, Key: k, Detail: firstLines(pr.Stderr, 60), Seed: seed, Run: pr.CurRun, Tier: tier, Stderr: firstLines(pr.Stderr, 80)}
+			v := &Violation{Property: prop, Class: c, Key: k, Detail: firstLines(pr.Stderr, 60), Seed: seed, Run: pr.CurRun, Tier: tier, Stderr: firstLines(pr.Stderr, 80), Killed: true}
 			v.Extra = map[string]string{"from_seed": "1"}
 			if isKnown(known, c, k) == "" && (viol == nil || v.Run < viol.Run) {
 				viol = v
@@ -587,8 +599,7 @@ func main() {
 			viol.Trace = regenTrace(m, viol)
 		}
 		writeJSON(vfile, viol)
-		inProc := !strings.HasSuffix(viol.Class, "/race") && !strings.HasSuffix(viol.Class, "/hang") && !strings.HasSuffix(viol.Class, "/alloc") &&
-			!strings.HasSuffix(viol.Class, "/blocked") && !strings.HasSuffix(viol.Class, "/crash") && (viol.Extra == nil || viol.Extra["kills"] != "1")
+		inProc := !viol.Killed
 		var small *Violation
 		if inProc {
 			pr := runWorker(m, workerArgs{Prop: prop, Mode: "shrink", File: vfile, Budget: 3000}, 10*time.Minute)
@@ -610,14 +621,16 @@ func main() {
 		ok := 0
 		var lastDetail string
 		for i := 0; i < 2; i++ {
-			c, _, d, _ := replayOnce(m, replayPath)
+			c, _, d, pr := replayOnce(m, replayPath)
 			if c == small.Class {
 				ok++
 				lastDetail = d
+			} else {
+				fmt.Fprintf(os.Stderr, "sup: confirm replay %d: got class %q (want %q), exit %d %s, detail %s\nstderr: %s\n", i, c, small.Class, pr.ExitCode, pr.Signal, d, firstLines(pr.Stderr, 20))
 			}
 		}
 		if ok < 2 {
-			os.Remove(replayPath)
+			os.Rename(replayPath, filepath.Join(scratch, "unconfirmed.json"))
 			fmt.Fprintf(os.Stderr, "sup: violation %s of run %d did not reproduce from its replay file (%d of 2) - harness trouble, not reported\n", small.Class, small.Run, ok)
 			exit = 2
 		} else {
